@@ -81,6 +81,18 @@ func c16deleters(c *Ctx) {
 				for _, a := range call.Common().Args {
 					if t := boundTarget(a); t != nil {
 						callbacks[t] = true
+						if t.Parent() != nil {
+							// a function literal that forwards to a method (func(k string) { cache.onEvict(k) }): the method plays the role
+							for _, tb := range t.Blocks {
+								for _, ti := range tb.Instrs {
+									if tc, ok := ti.(ssa.CallInstruction); ok {
+										if callee := tc.Common().StaticCallee(); callee != nil && callee.Pkg == t.Pkg {
+											callbacks[callee] = true
+										}
+									}
+								}
+							}
+						}
 					}
 				}
 			}
